@@ -54,6 +54,16 @@ def Unchanged (P : Prog) (s : Storage) (d : Dep) : Prop :=
   | .derived q => ∃ rq, alookup s.derived q = some rq ∧ rq.tu ≤ d.stamp ∧ (rq.deps = [] ∨ rq.tv = s.epoch) ∧
       ∃ R, BigN P s.srcs s.maps q rq.val R
 
+theorem Unchanged.toQuiet {P : Prog} {s : Storage} {d : Dep} (h : Unchanged P s d) : DepQuiet s d := by
+  unfold Unchanged at h; unfold DepQuiet
+  cases hn : d.node with
+  | source k => rw [hn] at h; exact h
+  | absent k => rw [hn] at h; exact h
+  | derived q =>
+    rw [hn] at h; simp only at h ⊢
+    obtain ⟨rq, hq, htu, hdv, _⟩ := h
+    exact ⟨rq, hq, htu, hdv⟩
+
 /-- the dependency was re-stamped since it was recorded -/
 def Changed (s : Storage) (d : Dep) : Prop :=
   match d.node with
